@@ -1,6 +1,7 @@
 package rules
 
 import (
+	"strings"
 	"go/ast"
 	"go/token"
 	"go/types"
@@ -71,6 +72,9 @@ func c15(c *core.Ctx) {
 				"the ID counter is "+a.Form+"-written: IDs restart, a stale release (e.g. the caller's deferred release after Save already released in immediate-write mode) matches a later holder's ID and releases that holder's guard")
 		}
 	}
+
+	rOwn := c.Rule("C15.idowner", "a guard ID received as a parameter together with its record is only ever used on that record: guard-taking methods are called on it, and helpers that take a (record, ID) pair receive the same pair", 5)
+	guardOwnerRule(c, rOwn)
 
 	// every ID that enters the queue is fresh
 	rFresh := c.Rule("C15.freshid", "every ID appended to the wait queue is the counter's value right after it was advanced in the same critical section: the result of an atomic add of a positive constant, or a read of the counter dominated by an increment statement with no other queue append in between", 2)
@@ -375,4 +379,82 @@ func isLenOf(info *types.Info, e ast.Expr, field *types.Var) bool {
 func isConst(info *types.Info, e ast.Expr, v int64) bool {
 	x, ok := core.ConstInt(info, e)
 	return ok && x == v
+}
+
+// guardOwnerRule: a guard ID belongs to the record it was acquired on. In a function that receives a
+// (record, guard ID) pair as parameters, every guard-taking method call that uses that ID is made on
+// that record, and a helper that takes such a pair is handed the same record together with the ID.
+func guardOwnerRule(c *core.Ctx, r *core.Rule) {
+	p := c.P
+	treasureT := p.Named(pkgTreasure, "Treasure")
+	isGuardID := func(t types.Type) bool { return strings.HasSuffix(t.String(), "guard.ID") }
+	pairOf := func(sig *types.Signature) (rec, id *types.Var, recIx, idIx int) {
+		recIx, idIx = -1, -1
+		nRec, nID := 0, 0
+		for i := 0; i < sig.Params().Len(); i++ {
+			pv := sig.Params().At(i)
+			if isGuardID(pv.Type()) {
+				id, idIx = pv, i
+				nID++
+			}
+			if types.Identical(pv.Type(), treasureT) {
+				rec, recIx = pv, i
+				nRec++
+			}
+		}
+		if nRec != 1 || nID != 1 {
+			return nil, nil, -1, -1
+		}
+		return rec, id, recIx, idIx
+	}
+	n := 0
+	for _, pkg := range guardPkgs {
+		for _, f := range p.FuncsIn(pkg) {
+			if f.Decl.Body == nil {
+				continue
+			}
+			rec, id, _, _ := pairOf(f.Obj.Type().(*types.Signature))
+			if rec == nil {
+				continue
+			}
+			info := f.Info()
+			core.Calls(f.Decl.Body, true, func(call *ast.CallExpr) {
+				fo := core.Callee(info, call)
+				if fo == nil {
+					return
+				}
+				sig, _ := fo.Type().(*types.Signature)
+				if sig == nil {
+					return
+				}
+				// method of the record taking the ID
+				if sig.Recv() != nil && sig.Params().Len() > 0 && isGuardID(sig.Params().At(0).Type()) && len(call.Args) > 0 && core.ObjOf(info, call.Args[0]) == types.Object(id) {
+					if core.Short(pkgPathOf(fo)) != pkgTreasure && core.Short(pkgPathOf(fo)) != pkgGuard {
+						return
+					}
+					n++
+					c.Touch(f)
+					rx := core.RecvExpr(call)
+					r.Check(rx != nil && core.ObjOf(info, rx) == types.Object(rec), f.Key+":"+fo.Name()+"("+id.Name()+"):on-own-record", call.Pos(), "the ID is used on the record it belongs to",
+						"guard ID parameter "+id.Name()+" (acquired on "+rec.Name()+") is used on another record ("+core.ExprStr(rx)+"): releasing or checking it there can match the ID of an unrelated holder of that record (IDs are small per-record counters) and hands its guard to a second caller, while the caller's own guard is never released")
+					return
+				}
+				// helper taking a (record, ID) pair
+				hrec, hid, hrecIx, hidIx := pairOf(sig)
+				if hrec == nil || hid == nil || p.ByObj[fo] == nil || hidIx >= len(call.Args) || hrecIx >= len(call.Args) {
+					return
+				}
+				if core.ObjOf(info, call.Args[hidIx]) != types.Object(id) {
+					return
+				}
+				n++
+				c.Touch(f)
+				r.Check(core.ObjOf(info, call.Args[hrecIx]) == types.Object(rec), f.Key+"->"+fo.Name()+":pair", call.Pos(), "record and its guard ID passed together",
+					"the helper "+fo.Name()+" receives guard ID "+id.Name()+" together with "+core.ExprStr(call.Args[hrecIx])+" instead of "+rec.Name()+", the record the ID was acquired on: the guard is released on (or checked against) another record")
+			})
+		}
+	}
+	if n == 0 {
+		r.Bad("guard-id-pairs", token.NoPos, "no use of a guard ID parameter found")
+	}
 }
